@@ -757,6 +757,182 @@ theorem clone_isolated : clone_isolated_full := by
         · intro id hS
           rw [hsub.1]; exact hS.2
 
+/-! #### one-statement footprints proved so far: the statements that re-create a root from literals -/
+
+/-- from a block outside an owned set only blocks outside it are reachable -/
+theorem Iso.reach_outside {σ : State} {k : Nat} {S : Nat → Prop} (iso : Iso σ k S) {c id : Nat} (r : Reach σ.heap c id)
+    (hc : ¬ S c) : ¬ S id := by
+  induction r with
+  | refl _ => exact hc
+  | step e _ ih =>
+    obtain ⟨b, hb, v, hv, hh⟩ := e
+    exact ih (iso.2.2.2.1 _ b hc hb v hv _ hh)
+
+/-- replacing another root by a value that holds no handle into the owned set: the old root is destroyed outside the set -/
+theorem replaceSlot_footprint {σ σ' : State} {k j : Nat} {S : Nat → Prop} {v : V} {T : List V} (inv : Inv σ (v :: T))
+    (iso : Iso σ k S) (hj : j ≠ k) (hv : ∀ c, handleOf v = some c → ¬ S c) (h : replaceSlot σ j v = .ok σ') :
+    Iso σ' k S ∧ slotV σ' k = slotV σ k ∧ ∀ id, S id → σ'.heap[id]? = σ.heap[id]? := by
+  obtain ⟨hslots, hjl, hsub⟩ := replaceSlot_spec inv h
+  have hcells : ∀ id, S id → σ'.heap[id]? = σ.heap[id]? := by
+    intro id hS
+    unfold replaceSlot at h
+    simp only [hjl, if_true] at h
+    cases hd : Var.drop σ.heap [slotV σ j] with
+    | error e => simp [hd] at h
+    | ok h' =>
+      simp only [hd, Except.ok.injEq] at h
+      subst h
+      simp only []
+      refine release_frame _ _ _ _ id hd ?_
+      intro w hw c hc r
+      simp only [List.mem_singleton] at hw
+      subst hw
+      exact iso.reach_outside r (iso.2.2.1 j hj c hc) hS
+  have hk : slotV σ' k = slotV σ k := by
+    simp [slotV, hslots, List.getD_eq_getElem?_getD, List.getElem?_set_ne hj]
+  refine ⟨⟨?_, ?_, ?_, ?_, ?_⟩, hk, hcells⟩
+  · rw [hk]; exact iso.1
+  · intro id b' hS hb' w hw c hc
+    have : getB σ.heap id = .ok b' := by rw [getB_eq, ← hcells id hS, ← getB_eq]; exact hb'
+    exact iso.2.1 id b' hS this w hw c hc
+  · intro j' hj' id hid
+    by_cases hjj : j' = j
+    · subst hjj
+      have : slotV σ' j' = v := by simp [slotV, hslots, List.getD_eq_getElem?_getD, hjl]
+      rw [this] at hid
+      exact hv id hid
+    · have : slotV σ' j' = slotV σ j' := by
+        simp [slotV, hslots, List.getD_eq_getElem?_getD, List.getElem?_set_ne (Ne.symm hjj)]
+      rw [this] at hid
+      exact iso.2.2.1 j' hj' id hid
+  · intro id b' hnS hb' w hw c hc
+    obtain ⟨b, hb, hit, _⟩ := hsub.2 id b' hb'
+    have hw' : w ∈ bvals b := by simpa [bvals, hit] using hw
+    exact iso.2.2.2.1 id b hnS hb w hw' c hc
+  · intro id hS
+    rw [hsub.1]; exact iso.2.2.2.2 id hS
+
+theorem stepFootprint_refused {σ : State} {k : Nat} {S : Nat → Prop} (iso : Iso σ k S) :
+    Iso σ k S ∧ slotV σ k = slotV σ k ∧ ∀ id, S id → σ.heap[id]? = σ.heap[id]? := ⟨iso, rfl, fun _ _ => rfl⟩
+
+/-- `root j = Var()` destroys root `j` only -/
+theorem stepFootprint_drop (j : Nat) : StepFootprint (.drop j) := by
+  intro σ k S inv iso hm
+  have hj : j ≠ k := by simpa [mentions] using hm
+  simp only [applyOp, targetOf, rootOp]
+  cases h : replaceSlot σ j V.none with
+  | error e => exact stepFootprint_refused iso
+  | ok σ' =>
+    exact replaceSlot_footprint (T := []) ((Inv.scalar rfl).mpr inv) iso hj (fun c hc => by cases hc) h
+
+/-- `root j = <number | bool | string literal>` destroys root `j` only -/
+theorem stepFootprint_ctorLit (j : Nat) (l : Lit) : StepFootprint (.ctorLit j l) := by
+  intro σ k S inv iso hm
+  have hj : j ≠ k := by simpa [mentions] using hm
+  simp only [applyOp, targetOf, rootOp]
+  cases h : replaceSlot σ j l.toV with
+  | error e => exact stepFootprint_refused iso
+  | ok σ' =>
+    exact replaceSlot_footprint (T := []) ((Inv.scalar (Lit.toV_scalar l)).mpr inv) iso hj
+      (fun c hc => by rw [Lit.toV_scalar l] at hc; cases hc) h
+
+
+/-- allocation: appending a block whose values hold no handle keeps every ownership and every owned cell -/
+theorem iso_alloc {σ : State} {k : Nat} {S : Nat → Prop} (iso : Iso σ k S) (b : Block) (hb : ∀ w ∈ bvals b, handleOf w = none) :
+    Iso { σ with heap := σ.heap ++ [some b] } k S ∧ ¬ S σ.heap.length ∧
+    ∀ id, S id → (σ.heap ++ [some b])[id]? = σ.heap[id]? := by
+  have hcells : ∀ id, S id → (σ.heap ++ [some b])[id]? = σ.heap[id]? :=
+    fun id hS => List.getElem?_append_left (iso.2.2.2.2 id hS)
+  have hnew : ¬ S σ.heap.length := fun hS => Nat.lt_irrefl _ (iso.2.2.2.2 _ hS)
+  refine ⟨⟨iso.1, ?_, iso.2.2.1, ?_, ?_⟩, hnew, hcells⟩
+  · intro id b' hS hb' w hw c hc
+    have : getB σ.heap id = .ok b' := by rw [getB_eq, ← hcells id hS, ← getB_eq]; exact hb'
+    exact iso.2.1 id b' hS this w hw c hc
+  · intro id b' hnS hb' w hw c hc
+    by_cases hlt : id < σ.heap.length
+    · have : getB σ.heap id = .ok b' := by rw [← getB_append_left [some b] hlt]; exact hb'
+      exact iso.2.2.2.1 id b' hnS this w hw c hc
+    · have hmem := getB_appended (Nat.le_of_not_lt hlt) hb'
+      simp only [List.mem_singleton, Option.some.injEq] at hmem
+      subst hmem
+      rw [hb w hw] at hc; cases hc
+  · intro id hS
+    simp only [List.length_append, List.length_singleton]
+    exact Nat.lt_succ_of_lt (iso.2.2.2.2 id hS)
+
+/-- a new block of scalar values becomes root `j` -/
+theorem alloc_replace_footprint {σ σ' : State} {k j : Nat} {S : Nat → Prop} {b : Block} (inv : Inv σ []) (iso : Iso σ k S)
+    (hj : j ≠ k) (hb : ∀ w ∈ bvals b, handleOf w = none) (hrc : b.rc = 1) (hs : b.isObj = true → SortedItems b.items)
+    (h : replaceSlot { σ with heap := σ.heap ++ [some b] } j (mkHandle b.isObj σ.heap.length) = .ok σ') :
+    Iso σ' k S ∧ slotV σ' k = slotV σ k ∧ ∀ id, S id → σ'.heap[id]? = σ.heap[id]? := by
+  obtain ⟨iso1, hnew, hcells⟩ := iso_alloc iso b hb
+  have inv1 := Inv.alloc (σ := σ) (T := []) (b := b) (by simpa using Inv.scalars inv (bvals b) hb) hrc hs
+  obtain ⟨iso2, hslot, hc2⟩ := replaceSlot_footprint inv1 iso1 hj
+    (fun c hc => by rw [handleOf_mkHandle] at hc; cases hc; exact hnew) h
+  exact ⟨iso2, hslot, fun id hS => by rw [hc2 id hS]; exact hcells id hS⟩
+
+/-- `root j = Var(Array<T>)` / `Var{...}` of literals -/
+theorem stepFootprint_ctorArr (j : Nat) (lits : List Lit) : StepFootprint (.ctorArr j lits) := by
+  intro σ k S inv iso hm
+  have hj : j ≠ k := by simpa [mentions] using hm
+  simp only [applyOp, targetOf, rootOp, opCtorArr, allocB]
+  cases h : replaceSlot { σ with heap := σ.heap ++ [some { isObj := false, items := lits.map (fun l => (([] : Bytes), l.toV)), cap := litCap lits.length, rc := 1 }] } j (.arr σ.heap.length) with
+  | error e => exact stepFootprint_refused iso
+  | ok σ' =>
+    exact alloc_replace_footprint (b := { isObj := false, items := lits.map (fun l => (([] : Bytes), l.toV)), cap := litCap lits.length, rc := 1 })
+      inv iso hj (by
+        intro w hw
+        simp only [bvals, List.map_map, List.mem_map, Function.comp] at hw
+        obtain ⟨l, _, rfl⟩ := hw
+        exact Lit.toV_scalar l) rfl (by intro h; cases h) h
+
+/-- `root j = Var(Dic<T>)` of literals -/
+theorem stepFootprint_ctorDic (j : Nat) (pairs : List (Bytes × Lit)) : StepFootprint (.ctorDic j pairs) := by
+  intro σ k S inv iso hm
+  have hj : j ≠ k := by simpa [mentions] using hm
+  simp only [applyOp, targetOf, rootOp, opCtorDic]
+  obtain ⟨items, h1, hs, hv⟩ := dicOfPairs_spec (pairs.map fun kl => (kl.1, kl.2.toV)) [] (by simp [SortedItems, AslProofs.Map.Sorted])
+  rw [h1]; simp only [allocB]
+  cases h : replaceSlot { σ with heap := σ.heap ++ [some { isObj := true, items := items, cap := litCap items.length, rc := 1 }] } j (.obj σ.heap.length) with
+  | error e => exact stepFootprint_refused iso
+  | ok σ' =>
+    exact alloc_replace_footprint (b := { isObj := true, items := items, cap := litCap items.length, rc := 1 })
+      inv iso hj (by
+        intro w hw
+        rcases hv w hw with h0 | h0
+        · simp at h0
+        · simp only [List.map_map, List.mem_map] at h0; obtain ⟨kl, _, rfl⟩ := h0; exact Lit.toV_scalar _) rfl (fun _ => hs) h
+
+theorem mkType_cases {h h' : Heap} {ty : Nat} {v : V} (hm : mkType h ty = .ok (h', v)) :
+    (h' = h ∧ handleOf v = none) ∨ ∃ o, h' = h ++ [some (emptyBlock o)] ∧ v = mkHandle o h.length := by
+  unfold mkType at hm
+  simp only [allocB] at hm
+  repeat' split at hm
+  all_goals first
+    | (simp only [Except.ok.injEq, Prod.mk.injEq] at hm; obtain ⟨rfl, rfl⟩ := hm; first
+        | exact Or.inl ⟨rfl, rfl⟩
+        | exact Or.inr ⟨false, rfl, rfl⟩
+        | exact Or.inr ⟨true, rfl, rfl⟩)
+    | cases hm
+
+/-- `root j = Var(Var::Type)` -/
+theorem stepFootprint_ctorType (j : Nat) (ty : Nat) : StepFootprint (.ctorType j ty) := by
+  intro σ k S inv iso hm
+  have hj : j ≠ k := by simpa [mentions] using hm
+  simp only [applyOp, targetOf, rootOp, opCtorType]
+  cases hmk : mkType σ.heap ty with
+  | error e => exact stepFootprint_refused iso
+  | ok r =>
+    obtain ⟨h1, v⟩ := r
+    simp only []
+    cases h : replaceSlot { σ with heap := h1 } j v with
+    | error e => exact stepFootprint_refused iso
+    | ok σ' =>
+      rcases mkType_cases hmk with ⟨rfl, hv⟩ | ⟨o, rfl, rfl⟩
+      · exact replaceSlot_footprint (T := []) ((Inv.scalar hv).mpr inv) iso hj (fun c hc => by rw [hv] at hc; cases hc) h
+      · exact alloc_replace_footprint (b := emptyBlock o) inv iso hj (by intro w hw; simp [bvals, emptyBlock] at hw) rfl
+          (by intro _; simp [emptyBlock, SortedItems, AslProofs.Map.Sorted]) h
+
 /-- **clone_deep over histories** — after an executed `root k = q.clone()` (any history before it), NO history of
 statements that do not mention root `k` and whose one-statement footprint is proved (`StepFootprint`) changes the tree
 root `k` denotes — whatever those statements do to the original and to everything else. -/
